@@ -383,7 +383,7 @@ def run(ctx):
 
     # ---- spec -> code: TLC behaviours as programs + schedules ----------------
     runs = []
-    nsim = 25 if quick else 400
+    nsim = 25 if quick else 200
     for cfg, ports in (("ListenerLifeSim.cfg", PORTS),
                        ("ListenerLifeSimHttp.cfg", {"http": PORTS["http"]})):
         behs = simulate_programs(ctx, cfg, nsim, 160,
@@ -400,7 +400,7 @@ def run(ctx):
     ctx.extra["tlc_behaviours_replayed"] = len(runs)
 
     # ---- code -> spec: seeded random histories under the scheduler -----------
-    nrand = 220 if quick else 5000
+    nrand = 220 if quick else 2500
     for i in range(nrand):
         rseed = ctx.rng.randrange(2 ** 30)
         rng = random.Random(rseed)
@@ -420,7 +420,7 @@ def run(ctx):
             str_ports=rng.random() < 0.3))
     # the race of the discard loop needs indications while the certificate
     # fails: a directed family (random schedules)
-    for i in range(40 if quick else 600):
+    for i in range(40 if quick else 300):
         rseed = ctx.rng.randrange(2 ** 30)
         prog = [dict(op="start", env=dict(H.NOENV, bad_cert=True)),
                 dict(op="start", env=dict(H.NOENV)), dict(op="stop")]
@@ -432,7 +432,7 @@ def run(ctx):
         raise vlib.MachineryError("scheduler failure: %s" % mach[0]["outcome"])
 
     # ---- real sockets, OS scheduling ------------------------------------------
-    nreal = 8 if quick else 80
+    nreal = 8 if quick else 40
     tries = 0
     done = 0
     while done < nreal and tries < nreal * 3:
